@@ -24,8 +24,9 @@ def c_pts(pts):
     return c_list([PNAME[p] for p in (pts or [])])
 
 
-def parse_disk(files):
-    """-> (list of fobs terms, hw, epochs)."""
+def parse_disk(files, torn=None):
+    """-> (list of fobs terms, hw, epochs). torn: the driver's description of a torn write (the junk after the
+    last whole frame of that log file, or the visible partial entry at the end of that index, is not listed)."""
     fobs, hw, ep = [], -1, []
     for f in files:
         name = f["name"]
@@ -42,11 +43,16 @@ def parse_disk(files):
         base = int(m.group(1))
         suf = {None: "None", "cleaned": "(Some SClean)", "truncated": "(Some STrunc)"}[m.group(3)]
         if m.group(2) == "log":
-            if f.get("tail"):
+            if f.get("tail") and not (torn and torn["file"] == name and torn["z"] == f["tail"]):
                 raise Untranslatable("log file %s ends in %d bytes that are not a whole frame" % (name, f["tail"]))
             fobs.append("OLog %s %s %s" % (cz(base), suf, c_list([cz(x) for x in (f.get("offs") or [])])))
         else:
-            fobs.append("OIdx %s %s %s" % (cz(base), suf, c_list(["(%s, %s, %s)" % (cz(a), cz(b), cz(c)) for a, b, c in (f.get("entries") or [])])))
+            ents = f.get("entries") or []
+            if torn and torn["file"] == name and torn.get("visible"):
+                if not ents or ents[-1][1] + ents[-1][2] != torn["z"]:
+                    raise Untranslatable("index file %s does not end in the partial entry the driver describes" % name)
+                ents = ents[:-1]
+            fobs.append("OIdx %s %s %s" % (cz(base), suf, c_list(["(%s, %s, %s)" % (cz(a), cz(b), cz(c)) for a, b, c in ents])))
     return fobs, hw, ep
 
 
@@ -75,6 +81,14 @@ def c_dlop(o):
         return "XEpoch %s" % coq_N(o["e"])
     if k == "ckpt":
         return "XCkpt"
+    if k == "crash" and o.get("torn"):
+        t = o["torn"]
+        fobs, hw, ep = parse_disk(o["disk"], t)
+        z = "None" if (t["z"] < 0 or (t["z"] == 0 and ".log" in t["file"])) else "(Some %s)" % cz(t["z"])
+        return "XTorn (%s) %d %s %d %s %s %s %s %s %s %s %s %s" % (
+            c_intent(o["intent"]), o["k"], PNAME[o["point"].split("~")[0]], t["k"], z, c_list(fobs), cz(hw), c_eps(ep),
+            c_list([cz(x) for x in (o.get("offs") or [])]), cz(o["newest"]), cz(o["oldest"]), cz(o["hw"]),
+            c_eps(o.get("cache") or []))
     if k == "crash":
         fobs, hw, ep = parse_disk(o["disk"])
         return "XCrash (%s) %d %s %s %s %s %s %s %s %s %s" % (
@@ -95,7 +109,7 @@ def eval_disk_cases(ctx, cases, tag, shard=40):
     jobs = []
     for s in range(0, len(cases), shard):
         part = cases[s:s + shard]
-        txt = "From LB Require Import Base.Prelude Log.Model Log.Retention Log.Compact Api.Range Log.Check Log.Disk Log.DiskCheck.\nOpen Scope Z_scope.\n"
+        txt = "From LB Require Import Base.Prelude Log.Model Log.Retention Log.Compact Api.Range Log.Check Log.Disk Log.DiskTear Log.DiskCheck.\nOpen Scope Z_scope.\n"
         sentinel = "{| dc_p := mkP 100 (mkLimits 0 0 0) false; dc_create_crash := false; dc_ops := [XOp (LState 12345 0 0) []] |}"
         txt += "Definition CS : list dcase := [\n %s].\n" % ";\n ".join([c_dcase(c) for c in part] + [sentinel])
         txt += "Definition M := Eval vm_compute in dcases_mismatches CS 0.\nPrint M.\n"
